@@ -1155,6 +1155,97 @@ func bxvParseCases(fails *[]bxvFailure) int {
 	return n
 }
 
+// C19: reference rendering of a syntax tree (from the property statement)
+func bxvRefRender(e grammar.Expression, ind string, k int) string {
+	rep := strings.Repeat(ind, k)
+	sel := func(s grammar.Selector) string {
+		if len(s.Path) == 0 {
+			return ""
+		}
+		switch s.Type {
+		case grammar.SelectorTypeBexpr:
+			return strings.Join(s.Path, ".")
+		case grammar.SelectorTypeJsonPointer:
+			return strings.Join(s.Path, "/")
+		}
+		return ""
+	}
+	switch n := e.(type) {
+	case *grammar.UnaryExpression:
+		name := "UNKNOWN"
+		if n.Operator == grammar.UnaryOpNot {
+			name = "Not"
+		}
+		return rep + name + " {\n" + bxvRefRender(n.Operand, ind, k+1) + rep + "}\n"
+	case *grammar.BinaryExpression:
+		name := map[grammar.BinaryOperator]string{grammar.BinaryOpAnd: "And", grammar.BinaryOpOr: "Or"}[n.Operator]
+		if name == "" {
+			name = "UNKNOWN"
+		}
+		return rep + name + " {\n" + bxvRefRender(n.Left, ind, k+1) + bxvRefRender(n.Right, ind, k+1) + rep + "}\n"
+	case *grammar.MatchExpression:
+		names := []string{"Equal", "Not Equal", "In", "Not In", "Is Empty", "Is Not Empty", "Matches", "Not Matches"}
+		name := "UNKNOWN"
+		if int(n.Operator) >= 0 && int(n.Operator) < len(names) {
+			name = names[n.Operator]
+		}
+		out := rep + name + " {\n" + strings.Repeat(ind, k+1) + "Selector: " + sel(n.Selector) + "\n"
+		if n.Operator <= grammar.MatchNotIn {
+			out += strings.Repeat(ind, k+1) + "Value: " + strconv.Quote(n.Value.Raw) + "\n"
+		}
+		return out + rep + "}\n"
+	case *grammar.CollectionExpression:
+		nb := n.NameBinding
+		var b string
+		switch nb.Mode {
+		case grammar.CollectionBindDefault:
+			b = "Default (" + nb.Default + ")"
+		case grammar.CollectionBindIndex:
+			b = "Index (" + nb.Index + ")"
+		case grammar.CollectionBindValue:
+			b = "Value (" + nb.Value + ")"
+		case grammar.CollectionBindIndexAndValue:
+			b = "Index & Value (" + nb.Index + ", " + nb.Value + ")"
+		default:
+			b = "UNKNOWN (" + nb.Default + ", " + nb.Index + ", " + nb.Value + ")"
+		}
+		return rep + string(n.Op) + " " + b + " on " + sel(n.Selector) + " {\n" + bxvRefRender(n.Inner, ind, k+1) + rep + "}\n"
+	}
+	return ""
+}
+
+func bxvDumpCases(fails *[]bxvFailure) int {
+	exprs := []string{"a == 1", "a.b.c != x", `"/a/b" in c`, "x not in y", "a is empty", "a is not empty", "a matches `x.*`", "a not matches `y`", "not a == 1",
+		"a == 1 and b == 2", "a == 1 or b == 2 and not c == 3", "any a.b as x { x == 1 }", "all a as i, v { v == 1 and i != 2 }", "any a as _, v { v is empty }", "all a as i, _ { i == 0 }",
+		"a == `say \"hi\"`", "a == `C:\\dir`", "a == `line1\nline2`", "a == \"tab\\there\"", "a == `}\nOr {`", "a == \"\"", "a contains `é`", `"/x/~0y" == 1`,
+		"any a as x { any x.b as y { y == `q\"` or not y matches `z` } }"}
+	n := 0
+	for _, in := range exprs {
+		ast, err := grammar.Parse("", []byte(in))
+		if err != nil {
+			continue
+		}
+		for _, ind := range []string{"", "  ", "\t"} {
+			for _, lvl := range []int{0, 1, 3} {
+				n++
+				var sb strings.Builder
+				func() {
+					defer func() {
+						if r := recover(); r != nil {
+							*fails = append(*fails, bxvFailure{Kind: "panic", Expr: in, Datum: "-", Got: "ExpressionDump panicked: " + fmt.Sprint(r)})
+						}
+					}()
+					ast.(grammar.Expression).ExpressionDump(&sb, ind, lvl)
+				}()
+				if want := bxvRefRender(ast.(grammar.Expression), ind, lvl); sb.String() != want {
+					*fails = append(*fails, bxvFailure{Kind: "mismatch", Expr: in, Datum: fmt.Sprintf("indent %q level %d", ind, lvl), Got: sb.String(), Want: want})
+				}
+			}
+		}
+	}
+	return n
+}
+
 // set by the verif-tagged companion file
 var bxvBudgetHook func(*[]bxvFailure) int
 
@@ -1194,6 +1285,8 @@ func TestBxvBattery(t *testing.T) {
 		n += bxvDeterminism(&fails)
 	case "C10":
 		n += bxvParseCases(&fails)
+	case "C19":
+		n += bxvDumpCases(&fails)
 	case "C11":
 		if bxvBudgetHook != nil {
 			n += bxvBudgetHook(&fails)
